@@ -55,6 +55,9 @@ class InfType:
     def __repr__(self):
         return "INF" if self.sign > 0 else "-INF"
 
+    def __format__(self, spec):
+        return repr(self)
+
     def __neg__(self):
         return InfType(-self.sign)
 
@@ -244,7 +247,22 @@ def ones_like(a, dtype=None, **k):
     return ones(_np.shape(a))
 
 
+class AbstractDim:
+    """an unknown matrix dimension: np.eye(n) / np.identity(n) give the unit of the free algebra."""
+
+    def __init__(self, name="n"):
+        self.name = name
+
+    def __repr__(self):
+        return f"<dim {self.name}>"
+
+
 def eye(n, m=None, dtype=None, **k):
+    if isinstance(n, AbstractDim):
+        from .free import Free
+
+        _used("np.eye(n) for abstract n = unit of the free algebra")
+        return Free.one()
     m = n if m is None else m
     out = zeros((n, m))
     for i in range(builtins.min(int(n), int(m))):
@@ -276,6 +294,8 @@ def array(x, dtype=None, **k):
 
 def asarray(x, dtype=None, **k):
     if isinstance(x, _np.ndarray) and x.dtype == object:
+        return x
+    if hasattr(x, "_vc_domain"):
         return x
     return array(x, dtype=dtype)
 
